@@ -1,5 +1,6 @@
 import DaskModel.Model.Csv
 import DaskModel.Props.C50
+import DaskModel.Lemmas.TextSeek
 /-! # C47 — DataFrame file round trips preserve data (CSV half; theorems)
 
 The parquet half of the statement cannot be decided in this sandbox (no pyarrow). CSV: the block model of
@@ -43,7 +44,7 @@ theorem blocks_lines (data : List Nat) (b : Nat) (hb : 0 < b) (hsz : data.length
     C50.mapM_decode NL NL_ne, C50.decode_eq_lines NL data NL_ne, Option.pure_def, Option.some.injEq] at h
   exact h
 
-/-- **csv_blocks_rows** (`_partial`: two facts about the concrete bytes are hypotheses, see below).
+/-- **csv_blocks_rows**, conditional form (the byte-level facts are discharged in `csv_blocks_rows` below).
     For every file and every blocksize the data rows seen by the per-block parsers, concatenated in
     partition order, are the lines of the file after the header line. -/
 theorem csv_blocks_rows_partial (data : List Nat) (b : Nat) (hb : 0 < b) (hsz : data.length < 2 ^ 53)
@@ -69,13 +70,96 @@ theorem csv_blocks_rows_partial (data : List Nat) (b : Nat) (hb : 0 < b) (hsz : 
     | nil => exact absurd hb0 hne
     | cons l ls => simp
 
-/-- FULL STATEMENT (the two byte-level hypotheses of `csv_blocks_rows_partial` discharged): still to prove —
-    `hh1`/`hh2` follow from `headerOf` (the first line plus terminator contains exactly one terminator, at
-    its end) and `hfirst` from `seekPos_ge` (the first block reaches at least to byte `length ≥ 1`). Both are
-    checked on every generated file by the tie (rows per partition and rows == file lines). -/
-def CsvBlocksRowsFullStatement : Prop :=
-  ∀ (data : List Nat) (b : Nat), 0 < b → data.length < 2 ^ 53 → data ≠ [] →
-    readCsvRows data (some b) = some ((lines NL data).drop 1)
+
+/-- the first block of `read_bytes` on a non-empty file is not empty -/
+theorem first_block_nonempty (data : List Nat) (b : Nat) (hb : 0 < b) (hsz : data.length < 2 ^ 53) (hne : data ≠ [])
+    (blocks : List (List Nat)) (hblocks : fileBlocks ieee data NL (some b) = some blocks) :
+    ∃ b0 rest, blocks = b0 :: rest ∧ b0 ≠ [] := by
+  have hlen : 0 < data.length := List.length_pos_iff.mpr hne
+  obtain ⟨offs, lens, hplan, h0, _, _, hll, hpos, _⟩ := C50.offsets_cover_ieee data.length b hlen hb hsz
+  simp only [fileBlocks, hplan, Option.map_some, Option.some.injEq] at hblocks
+  cases offs with
+  | nil => simp at h0
+  | cons o offs' =>
+    simp only [List.head?_cons, Option.some.injEq] at h0
+    subst h0
+    cases lens with
+    | nil => simp at hll
+    | cons l lens' =>
+      have hl : 0 < l := hpos l List.mem_cons_self
+      simp only [List.zip_cons_cons, List.map_cons] at hblocks
+      refine ⟨_, _, hblocks.symm, ?_⟩
+      simp only [readBlockFromFile, Option.isNone_some, Bool.false_eq_true, and_false, if_false]
+      unfold readBlock readBlockWith
+      have hd : NL.isEmpty = false := rfl
+      simp only [hd, Bool.false_eq_true, if_false, Nat.zero_add]
+      have hstart : (seekSimple NL data 0).1 = 0 := seekPos_zero NL data
+      have hstop : l ≤ (seekSimple NL data l).1 := seekPos_ge
+      rw [hstart]
+      simp only [Nat.not_lt_zero, if_false, Nat.sub_zero, readAt, List.drop_zero]
+      intro hcon
+      have := congrArg List.length hcon
+      simp only [List.length_take, List.length_nil] at this
+      omega
+
+
+
+theorem split_first (rest : List Nat) : ∀ (pre acc : List Nat), 10 ∉ pre →
+    pySplitAux NL 0 acc (pre ++ 10 :: rest) = (acc.reverse ++ pre) :: pySplitAux NL 0 [] rest
+  | [], acc, _ => by
+    have hp : NL <+: ([] ++ 10 :: rest) := ⟨rest, rfl⟩
+    rw [pySplitAux_match NL_ne acc _ hp]
+    simp [NL]
+  | c :: pre, acc, h => by
+    have hc : c ≠ 10 := fun hc => h (by simp [hc])
+    have hpre : 10 ∉ pre := fun hm => h (List.mem_cons_of_mem _ hm)
+    have hnp : ¬ NL <+: c :: (pre ++ 10 :: rest) := by
+      intro ⟨t, ht⟩
+      simp [NL] at ht
+      exact hc ht.1.symm
+    rw [List.cons_append, pySplitAux_nomatch acc c _ hnp, split_first rest pre (c :: acc) hpre]
+    simp
+
+/-- a file whose first line `pre` is terminated by a newline: the header bytes `read_pandas` extracts -/
+theorem headerOf_first_line (pre rest : List Nat) (hpre : 10 ∉ pre) :
+    headerOf (pre ++ 10 :: rest) = some (pre ++ NL) := by
+  unfold headerOf
+  have hne : (pre ++ 10 :: rest).isEmpty = false := by cases pre <;> rfl
+  simp only [hne, Bool.false_eq_true, if_false, pySplit]
+  have : NL.isEmpty = false := rfl
+  simp only [this, Bool.false_eq_true, if_false, Option.bind_some, split_first rest pre [] hpre,
+    List.reverse_nil, List.nil_append, List.head?_cons, Option.map_some]
+
+theorem lines_header_line (pre : List Nat) (hpre : 10 ∉ pre) : lines NL (pre ++ NL) = [pre ++ NL] := by
+  unfold lines linesAux
+  have : pre ++ NL = pre ++ 10 :: [] := rfl
+  rw [this, split_first [] pre [] hpre]
+  simp [pySplitAux, joinLines, lastPart, NL]
+
+/-- **csv_blocks_rows** (full): for every non-empty file whose first line (the header) is terminated by a
+    newline, and every blocksize, the data rows the per-block parsers see, concatenated in partition order, are
+    the lines of the file after the header line. (Lines, not records: a terminator inside a quoted field is a
+    terminator here.) -/
+theorem csv_blocks_rows (pre rest : List Nat) (hpre : 10 ∉ pre) (b : Nat) (hb : 0 < b)
+    (hsz : (pre ++ 10 :: rest).length < 2 ^ 53) :
+    readCsvRows (pre ++ 10 :: rest) (some b) = some ((lines NL (pre ++ 10 :: rest)).drop 1) := by
+  have hne : pre ++ 10 :: rest ≠ [] := by cases pre <;> simp
+  obtain ⟨blocks, hblocks, _⟩ := C50.blocks_concat_file_ieee (pre ++ 10 :: rest) NL NL_ne (some b)
+    (fun b' hb' => by cases hb'; exact hb) hsz
+  obtain ⟨b0, rest', hbl, hb0⟩ := first_block_nonempty _ b hb hsz hne blocks hblocks
+  refine csv_blocks_rows_partial _ b hb hsz blocks (pre ++ NL) hblocks (headerOf_first_line pre rest hpre)
+    (lines_header_line pre hpre) ⟨pre, rfl⟩ ?_
+  intro b0' rest'' hcons
+  rw [hbl] at hcons
+  have hb0e : b0 = b0' := (List.cons.inj hcons).1
+  subst hb0e
+  intro hl
+  obtain ⟨ls, hls, hflat⟩ := C50.decode_flatten NL b0 NL_ne
+  rw [C50.decode_eq_lines NL b0 NL_ne] at hls
+  cases hls
+  rw [hl] at hflat
+  exact hb0 hflat.symm
+
 
 /-- `blocksize=None`: one block, the whole file -/
 theorem csv_whole_file (data header : List Nat) (hheader : headerOf data = some header) :
